@@ -22,7 +22,8 @@ class H(object):
     """one harness: a function h(E) plus per-tier budgets"""
 
     def __init__(self, name, fn, quick=None, thorough=None, solvers=("glpk",), tol=1e-6,
-                 witness_every=None, bounds="", confirm=8, replay_ok=None):
+                 witness_every=None, bounds="", confirm=8, replay_ok=None, tiers=("quick", "thorough")):
+        self.tiers = tiers
         self.name = name
         self.fn = fn
         self.quick = dict(max_paths=4000, time_budget=60)
@@ -138,6 +139,8 @@ def run_check(pid, tier, harnesses, level="model_checking", assumptions=(), expl
     errors = []
     for h in harnesses:
         if only and h.name not in only:
+            continue
+        if not only and tier not in h.tiers:
             continue
         cfg = h.quick if tier == "quick" else h.thorough
         wevery = h.witness_every if h.witness_every is not None else (25 if tier == "quick" else 10)
